@@ -9,6 +9,7 @@ sorted genotype whose llk equals the recomputed one.
 """
 from __future__ import annotations
 
+import itertools
 import math
 from fractions import Fraction
 
@@ -429,6 +430,57 @@ def run(tier, replay=None):
         for row, llk in zip(gt, lt):
             check_state(row, float(llk), freqs, harr, reads, counts, "mcmc_sampler (trace row)", extra)
     lap("mcmc_sampler")
+    # ---------------- CallingMCMC.fit as a whole estimates the exact posterior: tiny instances (ploidy 2-3, 2-3 haplotypes) with few
+    # or NO reads and inbreeding on a grid that includes 0.4; the empirical genotype frequencies of a seeded run (deterministic for a
+    # given VERIF_SEED) must be within 0.07 of the exact posterior (the Monte-Carlo error of 2 x 3000 well-mixing steps is ~0.01)
+    from mchap.calling.classes import CallingMCMC
+    n5 = {"warm": 1, "quick": 8, "thorough": 60}[tier]
+    for i in range(n5):
+        nb = r.randint(1, 2); n_alleles = [2] * nb
+        haps = []
+        while len(haps) < r.choice([2, 3]):
+            h = [r.randrange(2) for _ in range(nb)]
+            if h not in haps:
+                haps.append(h)
+            if len(haps) == 2 ** nb:
+                break
+        ploidy = r.choice([2, 2, 3])
+        F = [0.0, 0.4, 0.1, 0.4][i % 4]
+        n_rd = [0, 0, 2, 1][i % 4] if i % 2 == 0 else r.choice([0, 1, 3])
+        truth = [r.choice(haps) for _ in range(ploidy)]
+        reads, counts = G.gen_reads(r, n_alleles, n_rd, haps=truth, style="encoded")
+        freqs = None if i % 3 else np.array(gen_freqs(r, len(haps), kinds=("skew",))[1], dtype=float)
+        harr = np.array(haps, dtype=np.int8)
+        genos = list(itertools.combinations_with_replacement(range(len(haps)), ploidy))
+        w = [exact_w(reads, counts, haps, F, freqs, list(g)) for g in genos]
+        tot = sum(w)
+        if tot == 0:
+            continue
+        truth_p = {g: float(x / tot) for g, x in zip(genos, w)}
+        step_type = ["Gibbs", "Metropolis-Hastings"][i % 2]
+        case = {"haplotypes": haps, "ploidy": ploidy, "inbreeding": F, "n_reads": int(len(counts)), "step_type": step_type,
+                "frequencies": None if freqs is None else freqs.tolist()}
+        try:
+            tr = CallingMCMC(ploidy=ploidy, haplotypes=harr, inbreeding=F, frequencies=freqs, steps=3200, chains=2, random_seed=11 + i,
+                             step_type=step_type).fit(reads, read_counts=counts)
+            g_all = np.sort(tr.burn(200).genotypes.reshape(-1, ploidy), axis=1)
+        except Exception as e:   # noqa: BLE001
+            chk.violation(f"CallingMCMC.fit raises on a valid instance: {type(e).__name__}: {e}", case, "C02/fit/raises")
+            continue
+        emp = {}
+        for row in g_all:
+            k = tuple(int(x) for x in row)
+            emp[k] = emp.get(k, 0) + 1
+        n_tot = len(g_all)
+        dev = max(abs(emp.get(g, 0) / n_tot - truth_p[g]) for g in genos)
+        chk.count(f"fit-posterior:reads={'0' if len(counts) == 0 else '>0'}:F={'0' if F == 0 else '>0'}")
+        chk.case(("fit-posterior", i), F > 0 or len(counts) > 0)
+        if not (dev <= 0.07) or any(k not in truth_p for k in emp):
+            chk.violation("the genotype frequencies of a CallingMCMC.fit run are not an estimate of the exact posterior (likelihood x prior "
+                          "normalised over all genotypes): deviation far beyond Monte-Carlo error",
+                          {**case, "max_abs_deviation": dev, "empirical": {str(k): round(v / n_tot, 4) for k, v in sorted(emp.items())},
+                           "exact": {str(k): round(v, 4) for k, v in truth_p.items()}}, "C02/fit/posterior")
+    lap("fit-posterior")
     # ------------------------------------------------------------------ per-sample / option plumbing of the programs (shared observer)
     if tier != "warm":
         from . import plumbing
